@@ -47,8 +47,24 @@ def world (fields : List String) : List String :=
     let (out, w) := acc
     let cs := unescape f
     if cs == "new".toList then (out ++ ["new-ok"], Front.worldNew evalFuel w) else
-    let idx := (String.ofList (cs.takeWhile (· ≠ ':'))).toNat?.getD 0
+    let head := cs.takeWhile (· ≠ ':')
     let text := (cs.dropWhile (· ≠ ':')).drop 1
+    -- `R<index>:<name>=<source>`: register a library source on that instance
+    if head.head? == some 'R' then
+      let idx := (String.ofList (head.drop 1)).toNat?.getD 0
+      let name := String.ofList (text.takeWhile (· ≠ '='))
+      let src := String.ofList ((text.dropWhile (· ≠ '=')).drop 1)
+      let lib : LibName := (name.splitOn "/").map LibElem.ident
+      match Interp.factoryOfText lib src with
+      | .error e => (out ++ ["R" ++ errStr e], w)
+      | .ok fac =>
+        match w[idx]? with
+        | none => (out ++ ["X no-instance"], w)
+        | some st =>
+          (out ++ ["reg-ok"], w.set idx { st with factories := Interp.libInsert st.factories lib fac,
+                                                  instances := st.instances.filter (fun p => p.1 ≠ lib) })
+    else
+    let idx := (String.ofList head).toNat?.getD 0
     match Front.worldStep evalFuel w idx text with
     | (none, w) => (out ++ ["X no-instance"], w)
     | (some r, w) =>
